@@ -183,10 +183,10 @@ def run(ctx):
             res.check(ops[0] == "Result::Ok(next(self.utf8_prefix)#Some.0.1)" and "V1:next(self.utf8_prefix)" in gl, "R13.8", "flag-from-prefix", "%s bb%d" % (nf.where(), i),
                       "Some(Ok(next char of the valid prefix))", "next_flag returns %s under %s" % (ops[0][:60], gl))
         elif v == "Some":
-            res.check(ops and ops[0] == "Result::Err(self.invalid_suffix#Some.0)" and "!V1:next(self.utf8_prefix)" in gl and i in wsuf, "R13.8", "suffix-once-after-prefix", "%s bb%d" % (nf.where(), i),
+            res.check(ops and ops[0] == "Result::Err(self.invalid_suffix#Some.0)" and ("!V1:next(self.utf8_prefix)" in gl or "V0:next(self.utf8_prefix)" in gl) and i in wsuf, "R13.8", "suffix-once-after-prefix", "%s bb%d" % (nf.where(), i),
                       "Some(Err(invalid suffix)) only after the prefix is exhausted; the suffix is cleared", "next_flag returns the invalid suffix before the prefix is exhausted or without clearing it (guards %s, cleared=%s)" % (gl, i in wsuf))
         elif v == "None":
-            res.check("!V1:next(self.utf8_prefix)" in gl and "!V1:self.invalid_suffix" in gl, "R13.8", "none-when-exhausted", "%s bb%d" % (nf.where(), i),
+            res.check(("!V1:next(self.utf8_prefix)" in gl or "V0:next(self.utf8_prefix)" in gl) and ("!V1:self.invalid_suffix" in gl or "V0:self.invalid_suffix" in gl), "R13.8", "none-when-exhausted", "%s bb%d" % (nf.where(), i),
                       "None only when prefix and suffix are exhausted", "next_flag returns None under %s" % gl)
     ie = fx.body("clap_lex::ShortFlags::is_empty")
     emp = ie.calls_to(r"^str::is_empty$")
